@@ -1,10 +1,11 @@
 import VerifModel.Model.Dispatch
 /-
   Driver op for C19:
-    dispatch <name> <axis|-> <type> <bintype|-> <r 0|1> <q count> <agg|->
+    dispatch <name> <axis|-> <type> <bintype|-> <r 0|1> <q count> <agg|-> [<T|-> <Tagg|-> <Tx|-> <clim 0|1>]
   reply:
     run <Class> <method> <axis> <thresholds source> bin=<bin type>
     ERR stub:<method> <Class> <axis> <thresholds source> bin=<bin type>     (base-class default: error message)
+    ERR inrun:<why> <Class> <method> <axis> <thresholds source> bin=<bin type>   (error guard at the start of the method)
     ERR <why>                                                                (the driver stops before the run)
     UNHANDLED <what>
   dispatchcheck <name> <axis|-> <type> <r 0|1> <q count>  ->  good | bad <decision>
@@ -30,6 +31,7 @@ def whyName : Why → String
   | .unknownAxis => "unknownAxis" | .unknownAgg => "unknownAgg" | .typeNotUnderstood => "typeNotUnderstood"
   | .internalThresholdType => "internalThresholdType" | .tooFewQuantiles => "tooFewQuantiles"
   | .tooManyQuantiles => "tooManyQuantiles" | .stub m => "stub:" ++ m
+  | .badT => "badT" | .nonPositiveT => "nonPositiveT" | .withinBinType => "withinBinType"
 
 def render (c : Cmd) : String :=
   match nameD c.name with
@@ -46,6 +48,11 @@ def render (c : Cmd) : String :=
         | .ok s0 => (match quantileSource nd c.nQ s0 with | .ok s => s.name | .error _ => "?")
         | .error _ => "?")
       s!"ERR stub:{core} {nd.cls} {(finalAxis nd ax).1} {src} bin={bin}"
+    | .error .withinBinType =>
+      -- the message comes from inside `_plot_core`: the output object is the one the core decision selects
+      (match dispatchD nd (axisD c.axis) td c.hasR c.nQ (aggOk c.agg) with
+       | .run cls m axis src => s!"ERR inrun:withinBinType {cls} {m} {axis} {src.name} bin={bin}"
+       | _ => "ERR withinBinType")
     | .error w => s!"ERR {whyName w}"
 
 def handle (args : List String) : Option String :=
@@ -54,6 +61,17 @@ def handle (args : List String) : Option String :=
       let nq ← q.toNat?
       let c : Cmd := ⟨name, opt axis, type, opt bin, r == "1", nq, parseAgg agg⟩
       some (render c)
+  | ["dispatch", name, axis, type, bin, r, q, agg, tlen, tagg, tx, clim] => do
+      -- the same with -T <tlen> -Tagg <tagg> -Tx <tx> (each `-` when absent) and -c (clim = 1)
+      let nq ← q.toNat?
+      let c : Cmd := ⟨name, opt axis, type, opt bin, r == "1", nq, parseAgg agg⟩
+      let len : Option TLen := (opt tlen).map fun s => match s.toInt? with
+        | some v => .int v
+        | none => .notInt
+      let t : TArgs := { len := len, agg := parseAgg tagg, axis := opt tx, clim := clim == "1" }
+      match tCheck t with
+      | some w => some s!"ERR {whyName w}"
+      | none => some (render c)
   | ["dispatchcheck", name, axis, type, r, q] => do
       -- the predicate the kernel evaluates in Proofs/C19 (C19_dispatch_total), for one combination
       let nq ← q.toNat?
